@@ -52,4 +52,171 @@ theorem clamp0_scale {a : K} (ha : 0 ≤ a) (x : K) : clamp0 (a * x) = a * clamp
 
 
 end scale
+section perm
+variable {N : Nat}
+
+/-- a permutation of `Fin N` as a function on sample ids (identity outside `0..N-1`): new sample `a` is old sample `pOf π a` -/
+def pOf (π : Equiv.Perm (Fin N)) (a : Nat) : Nat := if h : a < N then (π ⟨a, h⟩).1 else a
+
+theorem pOf_lt (π : Equiv.Perm (Fin N)) {a : Nat} (h : a < N) : pOf π a < N := by
+  simp only [pOf, h, dite_true]; exact (π ⟨a, h⟩).2
+
+theorem pOf_fin (π : Equiv.Perm (Fin N)) (i : Fin N) : pOf π i.1 = (π i).1 := by
+  simp only [pOf, i.2, dite_true]
+
+theorem pOf_symm (π : Equiv.Perm (Fin N)) (a : Nat) : pOf π.symm (pOf π a) = a := by
+  by_cases h : a < N
+  · have h2 := pOf_lt π h
+    have e : pOf π a = (π ⟨a, h⟩).1 := by simp only [pOf, h, dite_true]
+    have e2 : (⟨pOf π a, h2⟩ : Fin N) = π ⟨a, h⟩ := Fin.ext e
+    show (if h' : pOf π a < N then (π.symm ⟨pOf π a, h'⟩).1 else pOf π a) = a
+    rw [dif_pos h2, e2, Equiv.symm_apply_apply]
+  · simp only [pOf, h, dite_false]
+
+theorem pOf_symm' (π : Equiv.Perm (Fin N)) (a : Nat) : pOf π (pOf π.symm a) = a := by
+  have := pOf_symm π.symm a
+  rwa [Equiv.symm_symm] at this
+
+theorem pOf_injective (π : Equiv.Perm (Fin N)) : Function.Injective (pOf π) :=
+  Function.LeftInverse.injective (pOf_symm π)
+
+/-- the permutation as the list `new index ↦ old index` that C03's `relabel` takes -/
+def permList (π : Equiv.Perm (Fin N)) : List Nat := (List.range N).map (pOf π)
+
+theorem permList_getD (π : Equiv.Perm (Fin N)) {a : Nat} (h : a < N) : (permList π).getD a 0 = pOf π a := by
+  simp [permList, List.getD, h]
+
+theorem isPermPair (π : Equiv.Perm (Fin N)) : IsPermPair (permList π) (permList π.symm) N := by
+  refine ⟨by simp [permList], by simp [permList], fun i hi => ?_, fun i hi => ?_⟩
+  · rw [permList_getD π hi, permList_getD π.symm (pOf_lt π hi)]
+    exact ⟨pOf_lt π hi, pOf_symm π i⟩
+  · rw [permList_getD π.symm hi, permList_getD π (pOf_lt π.symm hi)]
+    exact ⟨pOf_lt π.symm hi, pOf_symm' π i⟩
+
+end perm
+
+section knn
+variable {K : Type} [LinearOrder K] {N : Nat}
+
+/-- `IsExactKnn` depends on the list of samples only up to its order -/
+theorem isExactKnn_of_perm {δ : Nat → Nat → K} {pts pts' : List Nat} (hp : pts.Perm pts') {k i : Nat} {l : List Nat}
+    (h : IsExactKnn δ pts k i l) : IsExactKnn δ pts' k i l := by
+  obtain ⟨h1, h2, h3, h4, h5⟩ := h
+  refine ⟨h1, h2, h3, fun j hj => hp.mem_iff.1 (h4 j hj), ?_⟩
+  rw [h5]
+  congr 1
+  apply sortK_eq_of_perm
+  unfold others
+  exact (hp.filter _).map _
+
+theorem range_map_pOf_perm (π : Equiv.Perm (Fin N)) : ((List.range N).map (pOf π)).Perm (List.range N) := by
+  rw [List.perm_ext_iff_of_nodup ((List.nodup_map_iff (pOf_injective π)).2 List.nodup_range) List.nodup_range]
+  intro a
+  simp only [List.mem_map, List.mem_range]
+  constructor
+  · rintro ⟨b, hb, rfl⟩; exact pOf_lt π hb
+  · intro ha; exact ⟨pOf π.symm a, pOf_lt π.symm ha, pOf_symm' π a⟩
+
+/-- **C02 + C03 on re-ordered data**: for tie-free data the exact search on the re-ordered callback returns, list by
+    list and up to the order inside each list, the relabelled lists of the exact search on the original callback -/
+theorem sameEdges_of_exact (π : Equiv.Perm (Fin N)) {δ : Nat → Nat → K} {g g' : Graph} {k : Nat}
+    (htf : ∀ i, i < N → ∀ a ∈ List.range N, ∀ b ∈ List.range N, δ i a = δ i b → a = b)
+    (hlen : g.length = N) (hex : ∀ u (hu : u < g.length), IsExactKnn δ (List.range N) k u g[u])
+    (hlen' : g'.length = N)
+    (hex' : ∀ u (hu : u < g'.length),
+      IsExactKnn (fun a b => δ (pOf π a) (pOf π b)) (List.range N) k u g'[u]) :
+    SameEdges (relabel g (permList π) (permList π.symm)) g' N := by
+  intro a ha b
+  have hp := isPermPair π
+  have hpa : pOf π a < g.length := by rw [hlen]; exact pOf_lt π ha
+  have hrel : (relabel g (permList π) (permList π.symm))[a]? = some (g[pOf π a].map (pOf π.symm)) := by
+    rw [relabel_getElem? hp ha, permList_getD π ha, List.getElem?_eq_getElem hpa]
+    simp only [Option.getD_some, Option.some.injEq]
+    apply List.map_congr_left
+    intro w hw
+    exact permList_getD π.symm (List.mem_range.1 ((hex _ hpa).2.2.2.1 w hw))
+  -- the relabelled list is an exact k-NN list of the re-ordered callback
+  have h1 : IsExactKnn (fun a b => δ (pOf π a) (pOf π b)) (List.range N) k a (g[pOf π a].map (pOf π.symm)) := by
+    have := (C12b.isExactKnn_transport (pOf π.symm) (pOf_injective π.symm) δ (fun a b => δ (pOf π a) (pOf π b))
+      (fun x y => by simp only [pOf_symm']) (List.range N) k (pOf π a) g[pOf π a]).2 (hex _ hpa)
+    rw [pOf_symm] at this
+    exact isExactKnn_of_perm (range_map_pOf_perm π.symm) this
+  have ha' : a < g'.length := by rw [hlen']; exact ha
+  have hperm := exactKnn_unique_of_tieFree h1 (hex' a ha') (by
+    intro x hx y hy hxy
+    have := htf (pOf π a) (pOf_lt π ha) _ (List.mem_range.2 (pOf_lt π (List.mem_range.1 hx))) _
+      (List.mem_range.2 (pOf_lt π (List.mem_range.1 hy))) hxy
+    exact pOf_injective π this)
+  unfold Edge
+  rw [hrel, List.getElem?_eq_getElem ha']
+  constructor
+  · rintro ⟨nb, hnb, hb⟩; cases hnb; exact ⟨_, rfl, hperm.mem_iff.1 hb⟩
+  · rintro ⟨nb, hnb, hb⟩; cases hnb; exact ⟨_, rfl, hperm.mem_iff.2 hb⟩
+
+end knn
+section geo
+set_option linter.unusedSectionVars false
+variable {K : Type} [AddCommMonoid K] [LinearOrder K] [IsOrderedAddMonoid K] {N : Nat}
+
+/-- an edge of the C04 problem of a graph is an edge of the graph (converse of `dijkstraEdge_of_edge`) -/
+theorem edge_of_dijkstraEdge {g : Graph} {k : Nat} (w : Nat → Nat → K) {a b : Nat}
+    (he : Dijkstra.Edge (problemOf g N w) k a b) : Edge g a b := by
+  obtain ⟨-, -, i, -, hi⟩ := he
+  rw [problemOf_nbr] at hi
+  cases hg : g[a]? with
+  | none => rw [hg] at hi; cases hi
+  | some nb =>
+    rw [hg] at hi
+    exact ⟨nb, hg, List.mem_of_getElem? hi⟩
+
+variable (π : Equiv.Perm (Fin N)) {δ : Nat → Nat → K} {g g' : Graph} {k : Nat}
+
+theorem walk_perm (hu : Uniform g N k) (hu' : Uniform g' N k)
+    (hse : SameEdges (relabel g (permList π) (permList π.symm)) g' N) {s v : Nat} {d : K}
+    (h : Dijkstra.Walk (problemOf g N δ) k s v d) :
+    Dijkstra.Walk (problemOf g' N (fun a b => δ (pOf π a) (pOf π b))) k (pOf π.symm s) (pOf π.symm v) d := by
+  induction h with
+  | nil hs => exact Dijkstra.Walk.nil (pOf_lt π.symm hs)
+  | @snoc u x d _ he ih =>
+    have hux := he.1
+    have hxN := he.2.1
+    have e1 := relabel_edge hu (isPermPair π) (edge_of_dijkstraEdge δ he)
+    rw [permList_getD π.symm hux, permList_getD π.symm hxN] at e1
+    have e2 := (hse _ (pOf_lt π.symm hux) _).1 e1
+    have e3 := dijkstraEdge_of_edge hu' (fun a b => δ (pOf π a) (pOf π b)) e2
+    have := Dijkstra.Walk.snoc ih e3
+    simpa only [problemOf, pOf_symm'] using this
+
+theorem walk_unperm (hu : Uniform g N k) (_hu' : Uniform g' N k)
+    (hse : SameEdges (relabel g (permList π) (permList π.symm)) g' N) {s v : Nat} {d : K}
+    (h : Dijkstra.Walk (problemOf g' N (fun a b => δ (pOf π a) (pOf π b))) k s v d) :
+    Dijkstra.Walk (problemOf g N δ) k (pOf π s) (pOf π v) d := by
+  induction h with
+  | nil hs => exact Dijkstra.Walk.nil (pOf_lt π hs)
+  | @snoc u x d _ he ih =>
+    have hux : u < N := he.1
+    have hxN : x < N := he.2.1
+    have e1 := (hse u hux x).2 (edge_of_dijkstraEdge _ he)
+    have e2 := (edge_relabel hu (isPermPair π) hux e1).1
+    rw [permList_getD π hux, permList_getD π hxN] at e2
+    exact Dijkstra.Walk.snoc ih (dijkstraEdge_of_edge hu δ e2)
+
+/-- geodesics between re-ordered samples in the graph of the re-ordered search -/
+theorem geodesic_perm_edges (hu : Uniform g N k) (hu' : Uniform g' N k)
+    (hse : SameEdges (relabel g (permList π) (permList π.symm)) g' N) {s v : Nat} {o : Option K}
+    (h : Dijkstra.IsGeodesic (problemOf g N δ) k s v o) :
+    Dijkstra.IsGeodesic (problemOf g' N (fun a b => δ (pOf π a) (pOf π b))) k (pOf π.symm s) (pOf π.symm v) o := by
+  cases o with
+  | none =>
+    intro d' hw
+    have := walk_unperm π hu hu' hse hw
+    rw [pOf_symm', pOf_symm'] at this
+    exact h d' this
+  | some d =>
+    refine ⟨walk_perm π hu hu' hse h.1, fun d' hw => ?_⟩
+    have := walk_unperm π hu hu' hse hw
+    rw [pOf_symm', pOf_symm'] at this
+    exact h.2 d' this
+
+end geo
 end TapkeeVerif.EquivCompose
